@@ -47,7 +47,8 @@ pub fn run(opts: &Opts) {
     let n = if opts.n > 0 { opts.n } else if opts.thorough { 20_000 } else { 800 };
     for i in 0..n {
         let mut rng = case_rng(opts.seed, 3, i as u64);
-        let o = GenOpts { err_rate: 0, max_blocks: 3 };
+        // every fifth case has expressions that fail for some bindings (a run that ends in an error is an outcome too)
+        let o = GenOpts { err_rate: if i % 5 == 4 { 4 } else { 0 }, max_blocks: 3 };
         let mut pool = Pool::default();
         let nb = rng.gen_range(1..=o.max_blocks);
         let mut authority = vec![];
